@@ -19,7 +19,9 @@ type C11 struct {
 	nt       bool
 }
 
-func init() { RegisterChecker("C11", func() Checker { return &C11{firstPut: map[uint64]map[string]int{}} }) }
+func init() {
+	RegisterChecker("C11", func() Checker { return &C11{firstPut: map[uint64]map[string]int{}} })
+}
 func (c *C11) ID() string { return "C11" }
 
 func basketBalsOf(s *Snapshot, id uint64) []*basketv1.BasketBalance {
@@ -108,9 +110,9 @@ func (c *C11) AfterTx(w *World, t *TxCtx) {
 			}
 			// R3: drained oldest start date first
 			type ent struct {
-				denom            string
-				start            *big.Int
-				before, after    *big.Rat
+				denom         string
+				start         *big.Int
+				before, after *big.Rat
 			}
 			var ents []ent
 			for _, bb := range basketBalsOf(pre, bk.Id) {
@@ -240,7 +242,7 @@ type C18 struct {
 	probed       int
 }
 
-func init() { RegisterChecker("C18", func() Checker { return &C18{} }) }
+func init()               { RegisterChecker("C18", func() Checker { return &C18{} }) }
 func (c *C18) ID() string { return "C18" }
 
 func zeroish(s string) bool {
